@@ -221,6 +221,22 @@ T = {
              "cnl::sqrt on a multi-limb wide_integer (D > 128), any operand above 2^64: the remainder update num -= root + bit borrows across a limb", ["C19", "C10", "C01"]),
  "M-C02-6": ("C02", "Knuth division, step D6: the add-back no longer decrements q_hat, so the stored quotient limb is one too high while the remainder is right (ckormanyos/uintwide_t.h)",
              "scaled_integer over a multi-limb wide_integer, divisor of at least two limbs in an add-back case: rep(a) = 2^96 + 1, rep(b) = 2^95 + 1 gives a/b == 2", ["C02", "C10"]),
+ "M-C16-6": ("C16", "unary + on fraction negates the numerator (copy of unary -) (fraction/operators.h)",
+             "+f for any fraction with a non-zero numerator: +(2/3) == -2/3", ["C16"]),
+ "M-C20-4": ("C20", "the fix f722f16 undone: `floored <= Exponent` instead of std::cmp_less_equal (scaled_integer/math.h)",
+             "exp2 on scaled_integer<uint32_t, power<E>>, E < 0: rep 1 for every input", ["C20"]),
+ "M-C11-7": ("C11", "neg_inf divide: the floor correction looks at the remainder's sign only and ignores the divisor's (rounding/neg_inf_rounding_tag.h)",
+             "static_integer / static_number with neg_inf_rounding_tag, negative divisor, inexact quotient: 7 / -2 == -3", ["C11", "C08"]),
+ "M-C03-6": ("C03", "common_elastic_type: max(Digits1, Digits2) - 1 digits for the type both operands of a mixed elastic comparison are cast to (elastic_integer/custom_operator.h)",
+             "two different elastic_integer types whose larger digit count is one above a rep boundary (8, 16, 32, 64), wider operand using its top digit: elastic<32, unsigned>{4000000000} < elastic<31>{-1}", ["C03", "C05", "C12"]),
+ "M-C12-6": ("C12", "mixed-exponent + - & | ^: the right operand aligned with scale<shift> (default radix 2) instead of scale<shift, Radix> (scaled/binary_operator.h)",
+             "radix other than 2, different exponents with the right operand the coarser one: 1.25 + 0.5 at power<-2,10> / power<-1,10> == 1.35", ["C12", "C01"]),
+ "M-C01-7": ("C01", "operator-(power, power) drops Radix from the result tag (scaled/definition.h)",
+             "binary - on scaled_integer with a radix other than 2: the difference is wrapped as power<min, 2>", ["C01", "C02"]),
+ "M-C04-7": ("C04", "power_value_fn for radices other than 2 gains a trailing return type S: Radix^E wraps in the source rep (power_value.h)",
+             "radix other than 2, 8 or 16-bit source rep, Radix^|exponent difference| not fitting it: int8_t 5 at power<0,10> -> power<-3,10> gives rep -120", ["C04", "C01", "C09"]),
+ "M-C05-7": ("C05", "set_digits: the signed 15/16 digit boundary takes the unsigned pair's numbers (the same slip as M-C01-3, proposed independently) (num_traits/set_digits.h)",
+             "signed 16-digit elastic result with an int8_t / int16_t narrowest, magnitude above 32767: elastic_integer<8, int8_t>{255} squared == -511", ["C05", "C01"]),
 }
 
 
@@ -236,6 +252,9 @@ HIST = {
  "M-C19-6": "reported by C10 and C01 (limb algebra: multi-limb subtraction), not by C19, which decides sqrt's types, termination and start bit and leaves the digit-by-digit values and the rep's own arithmetic to their owners",
  "M-C07-6": "identical to M-C11-5 (proposed independently): reported by the ++ / -- lines added for that change",
  "M-C02-6": "NOT reported: inside Knuth's division (see M-C04-5); the third seeded change in that function, which sub-agents reach for once everything else in the multi-limb back end is decided",
+ "M-C11-7": "reported by C08, the owner of the rounding layer's division (as M-C11-2)",
+ "M-C12-6": "reported by C01, which owns the mixed-exponent alignment incl. radix 10; C12's native-tag wrappers are radix 2",
+ "M-C20-4": "reported by the exp2 structure kernels of the unsigned 32-bit reps (the defect D23 coming back)",
  "M-C10-4": "NOT reported: inside Knuth's division (see M-C04-5)",
  "M-C01-6": "missed at first: no elastic rep with digits + shift at a 32 / 64 boundary was in the matrix; six boundary pairs added (which needed one more normaliser rule: sign extension of a shift through an immaterial zero extension)",
  "M-C20-3": "missed at first (the coefficient certificate's necessary bound is 12 units, the change moves coefficients by one): rounding_conversion == round-to-nearest is now an EQ obligation over all doubles in [0, 1)",
